@@ -274,3 +274,23 @@ REGISTRY["C06"] = {
         K("c06::c06_backend_order_transitive", "three backends differing in address/port/backup; unwind 6", "a<=b and b<=c => a<=c", ["command/src/response.rs"]),
     ],
 }
+
+UF = ["lib/src/protocol/udp/flow.rs", "lib/src/protocol/udp/mod.rs"]
+REGISTRY["C19"] = {
+    "technique": "bounded model checking (Kani/CBMC, SAT) of the per-flow UDP state machine (one step from an arbitrary flow state) and the affinity key",
+    "level_text": "CBMC decides, from an arbitrary UdpFlow state (all counters, caps, generation, PPv2 flags symbolic), that one datagram/touch step changes exactly the right saturating counter, always changes the timer generation (so a stale expiry never matches, incl. u64 wrap), that teardown_reason is Some exactly when a non-zero cap is reached (responses first) and fires on exactly the cap-th datagram, that the PPv2 prefix policy is never/every/exactly-first, that phases only move forward; and that FlowKey::from_src identifies exactly the source ip (and port when configured) for all IPv4/IPv6 addresses. Single inductive steps, so they hold for histories of any length.",
+    "level_note": "Which backend got which datagram, cap enforcement on the number of live flows and exactly-once teardown live in UdpManager (HashMap<FlowKey,FlowId> + slab + VecDeque) and are outside CBMC's reach; the repository's seeded simulation remains the only coverage there.",
+    "rule": "C19: one harness per flow method family.",
+    "trusted_base": ["Instant values are a fixed origin (never compared by the flow); timeouts are whole seconds"],
+    "assumptions": [],
+    "residual": "UdpManager: key -> flow -> backend stickiness, max_flows cap, shedding, drain, generation-token comparison at expiry, teardown exactly once.",
+    "obligations": [
+        K("c19::c19_flow_datagram_step", "arbitrary established flow; one of on_client_datagram / on_backend_datagram / touch; unwind 4",
+          "generation changes (wrapping +1) on every touch; exactly the right counter +1 saturating; phase unchanged", UF, min_covers=2),
+        K("c19::c19_teardown_reason_exact", "arbitrary flow in any phase; unwind 4", "Some <=> a non-zero cap is reached; ResponsesReached takes precedence", UF, min_covers=2),
+        K("c19::c19_cap_reached_exactly", "flow below its responses cap, one reply; unwind 4", "teardown fires on exactly the last allowed reply", UF, min_covers=2),
+        K("c19::c19_proxy_protocol_policy", "arbitrary flags, two successive upstream datagrams; unwind 4", "disabled => never; every-datagram => always; else exactly the first", UF),
+        K("c19::c19_phase_forward_only", "all legal (from,to) phase pairs; unwind 4", "set_phase moves strictly forward and sozu's transition debug_assert holds", UF),
+        K("c19::c19_flowkey_affinity", "all IPv4/IPv6 source pairs, both affinity modes; unwind 18", "equal keys <=> equal ip (and port when keyed on it); key keeps the client's ip; port zeroed otherwise", UF, min_covers=2),
+    ],
+}
